@@ -169,7 +169,8 @@ class YowStack(object):
         self.__stack.push(layerClass)
 
     def addPostConstructLayer(self, layer):
-        self.__stackInstances[-1].setLayers(layer, self.__stackInstances[-2])
+        below = self.__stackInstances[-2] if len(self.__stackInstances) > 1 else None
+        self.__stackInstances[-1].setLayers(layer, below)
         layer.setLayers(None, self.__stackInstances[-1])
         self.__stackInstances.append(layer)
 
